@@ -213,6 +213,8 @@ def run_history(case):
                         raise Violation("query-differs", f"{what}: QueryWav.getSamples({t0!r},{t1!r}) returned {len(got)} samples "
                                         f"{got[:6]}.., model run from {i}: {model[i:j][:6]}.. ({j - i})")
                     cl.add("query_offgrid")
+            if from_bytes(q.getFrames(), width) != model or from_bytes(q.getFrames(), width) != model:
+                raise Violation("query-differs", f"{what}: QueryWav.getFrames() without arguments does not return the whole recording after earlier reads")
             q.audiofile.close()
             wav = w2
             cl.add("reopen")
